@@ -78,8 +78,8 @@ def analyse(repo: Repo) -> ScanInfo:
         sx0 = SymX(repo, T, keep=lambda f: f.name == EXCLUSION_PREDICATE)
         tr0 = sx0.run(init, args={q: ("param", f"{cls.name}.{q}") for q in init.param_names[1:]}, self_term=self_t)
         if tr0.final is not None and tr0.final.alive:
-            heap = {k: v for k, v in tr0.final.heap.items() if k[0] == self_t}
-    sx = SymX(repo, T, keep=lambda f: f.name == EXCLUSION_PREDICATE)
+            heap = dict(tr0.final.heap)  # fields of the scanner and of helper objects it creates
+    sx = SymX(repo, T, keep=lambda f: f.name == EXCLUSION_PREDICATE, first_id=10_000)
     trace = sx.run(parse, heap=heap)
     info = ScanInfo(parse, sx, trace)
     info.ctor_heap = heap
@@ -119,6 +119,8 @@ def analyse(repo: Repo) -> ScanInfo:
                     elems = [(src[2], f_and([known, *conds]))]
                 elif src[0] == "yields":
                     elems = [(v, f_and([known, g])) for g, v in src[1]]
+                elif src[0] == "call" and src[1] == ("builtin", "filter") and len(src[2]) == 2 and is_none(src[2][0]) and unbox(src[2][1])[0] in ("list", "tuple") and not any(x[0] == "star" for x in unbox(src[2][1])[1]):
+                    elems = [(x, f_and([known, sx.truth(x)])) for x in unbox(src[2][1])[1]]  # the truthy ones
                 else:
                     info.problems.append(f"module names are added in bulk from `{show(src, 80)}`")
                     continue
@@ -490,7 +492,12 @@ def _children_handed_on(info: ScanInfo, d: Event):
     good: list[str] = []
     bad: list[str] = []
     for e in info.trace.events:
-        if e is d or e.kind not in ("mut", "call") or (e.kind == "call" and e.func[0] != "fn"):
+        if e is d or e.kind not in ("mut", "call"):
+            continue
+        if e.kind == "call" and e.func == ("builtin", "map") and len(e.args) == 2 and e.args[0][0] in ("attr", "fn", "bound", "partial") and _unwrap_iterable(e.args[1]) == entries:
+            good.append("each entry")  # `map(self._visit, entries)`: the visiting function is applied to every entry
+            continue
+        if e.kind == "call" and e.func[0] != "fn":
             continue
         operands = []
         for a in [*e.args, *[v for _k, v in e.kwargs]]:
